@@ -163,6 +163,9 @@ var c14ModeNames = []string{"none", "gosched", "sleep", "rendezvous"}
 
 func c14Run(c *core.Ctx, idx int) {
 	lines := c14List(c)
+	if c.Rng.Intn(3) == 0 {
+		lines = gen.PadToStraddle(c.Rng, lines, 1+c.Rng.Intn(3))
+	}
 	content := util.Lines(lines)
 	kind := []string{"dns", "engine", "network", "network", "cosmetic", "mixed"}[c.Rng.Intn(6)]
 	file := ""
